@@ -7,7 +7,24 @@ VPSC_RULE = ("each evaluation is one simulated world generated from a seed: 1-3 
 OVERLAP_RULE = ("each evaluation is one simulated world: 1-3 sessions (removeoverlaps / generateX,YConstraints histories on rectangle sets in six styles: "
                 "random, grid-aligned ties, identical, fractional, thin, nested; with fixed subsets and optional third pass; solver sessions as noise) sharing one seeded heap whose "
                 "placement policy decides the scan-line tie-breaks; border globals checked at every yield; non-trivial = a reach probe fired; distinct = distinct event-log hash")
+ROUTER_RULE = ("each evaluation is one simulated world: 1-2 editor sessions on their own Avoid::Router (scene of 2-10 convex shapes on a 5-unit grid, 1-8 connectors) "
+               "executing a generated history of add/move/resize/delete shape, move end point, add/delete connector, parameter changes and processTransaction ops, "
+               "with cancel/deadline/clock faults attached to transactions, transactions on or off, router tunables and heap placement varied per run, optional noise session; "
+               "oracles run after every completed transaction; non-trivial = a reach probe fired; distinct = distinct event-log hash")
 PROPS = {
+    "C03": dict(build="plain", runs_quick=60000, budget_quick=40, runs_thorough=400000, budget_thorough=900, rule=ROUTER_RULE,
+                assumptions=["validity judged against the shapes themselves (not the buffered routing polygons), tolerance 1e-7 in clip parameter",
+                             "interior clause only when a path exists among obstacles inflated by 1 unit",
+                             "after a cancelled transaction oracles are suspended until the next completed transaction (recovery clause)"]),
+    "C04": dict(build="plain", runs_quick=60000, budget_quick=40, runs_thorough=300000, budget_thorough=900, rule=ROUTER_RULE,
+                assumptions=["separated (gap>=5) convex obstacles, free end points with all directions, angle/crossing penalties 0",
+                             "penalty>0: violation only if costlier than the taut-path optimum; equal to taut but above the free optimum is known finding KF-C04-a"]),
+    "C05": dict(build="plain", runs_quick=60000, budget_quick=40, runs_thorough=300000, budget_thorough=900, rule=ROUTER_RULE,
+                assumptions=["cost oracle armed for free end points with all directions; rectangles; buffer distance modelled by growing the boxes",
+                             "the bend-estimator sentence of the statement is a pure function and is not decided here"]),
+    "C06": dict(build="plain", runs_quick=40000, budget_quick=40, runs_thorough=250000, budget_thorough=900, rule=ROUTER_RULE,
+                assumptions=["cost equality armed with crossing/shared-path/cluster penalties 0 and free end points",
+                             "fresh router: same code, same parameters, shapes created in id order"]),
     "C09": dict(build="plain", runs_quick=40000, budget_quick=35, runs_thorough=2000000, budget_thorough=900, rule=OVERLAP_RULE,
                 assumptions=["fixed rectangles that overlap one another are dropped from the fixed set (unsatisfiable request)",
                              "constraint-set clause checked for generateYConstraints and generateXConstraints(useNeighbourLists=false) by projecting a random placement with the QP oracle"]),
